@@ -92,6 +92,8 @@ impl ChainService {
     fn asynchronous_process_block(&self, lonely_block: LonelyBlock) {
         let block_number = lonely_block.block().number();
         let block_hash = lonely_block.block().hash();
+        #[cfg(ckb_verif)]
+        let _verif_section = crate::verif::section();
         // Skip verifying a genesis block if its hash is equal to our genesis hash,
         // otherwise, return error and ban peer.
         if block_number < 1 {
@@ -109,6 +111,11 @@ impl ChainService {
                 lonely_block.execute_callback(Err(error));
             } else {
                 warn!("receive 0 number block: 0-{}", block_hash);
+                #[cfg(ckb_verif)]
+                crate::verif::emit(
+                    "Receive",
+                    &format!("\"b\":{},\"res\":\"genesis\"", crate::verif::h(&block_hash)),
+                );
                 lonely_block.execute_callback(Ok(false));
             }
             return;
@@ -125,10 +132,20 @@ impl ChainService {
                 );
                 self.shared
                     .insert_block_status(lonely_block.block().hash(), BlockStatus::BLOCK_INVALID);
+                #[cfg(ckb_verif)]
+                crate::verif::emit(
+                    "Receive",
+                    &format!("\"b\":{},\"res\":\"bad_nc\"", crate::verif::h(&block_hash)),
+                );
                 lonely_block.execute_callback(Err(err));
                 return;
             }
         }
+        #[cfg(ckb_verif)]
+        crate::verif::emit(
+            "Receive",
+            &format!("\"b\":{},\"res\":\"pass\"", crate::verif::h(&block_hash)),
+        );
 
         if let Err(err) = self.insert_block(&lonely_block) {
             error!(
@@ -139,6 +156,8 @@ impl ChainService {
             lonely_block.execute_callback(Err(err));
             return;
         }
+        #[cfg(ckb_verif)]
+        crate::verif::emit("Insert", &format!("\"b\":{}", crate::verif::h(&block_hash)));
 
         self.orphan_broker.process_lonely_block(lonely_block.into());
     }
